@@ -202,7 +202,10 @@ class Real:
                 if flaw != "none":
                     # a failing add carries a teardown callback too: it must never run
                     kwargs.setdefault("teardown_callback", lambda: self.tdlog.append(("failed-add", c)))
-                if name == "default" and self.variant % 2 == 0:
+                if self.shortcut(c):
+                    import asphalt.core as ac
+                    await self.via_agent(c, lambda: ac.add_resource(value, name, types, description="d", **kwargs))
+                elif name == "default" and self.variant % 2 == 0:
                     ctx.add_resource(value, types=types, description="d", **kwargs)
                 else:
                     ctx.add_resource(value, name, types, description="d", **kwargs)
@@ -259,7 +262,11 @@ class Real:
                     kw = {"types": [TY["T1"], None]}
                 elif flaw == "notypes":
                     kw = {}
-                ctx.add_resource_factory(cbk, name, description="fd", **kw)
+                if self.shortcut(c):
+                    import asphalt.core as ac
+                    await self.via_agent(c, lambda: ac.add_resource_factory(cbk, name, description="fd", **kw))
+                else:
+                    ctx.add_resource_factory(cbk, name, description="fd", **kw)
                 return "ok", None
             if a == "Inject":
                 return await self.inject_step(obs)
@@ -270,7 +277,16 @@ class Real:
                 if opt or self.variant % 2 == 0:
                     kw["optional"] = opt
                 args = (TY[t],) if (n == "default" and self.variant % 2 == 0) else (TY[t], n)
-                if api == "sync":
+                if self.shortcut(c):
+                    import asphalt.core as ac
+                    if api == "sync":
+                        v = await self.via_agent(c, lambda: ac.get_resource_nowait(*args, **kw))
+                    else:
+                        v = await self.via_agent(c, lambda: ac.get_resource(*args, **kw))
+                    names_seen = await self.via_agent(c, lambda: sorted(ac.get_resources(TY[t])))
+                    if names_seen != sorted(ctx.get_resources(TY[t])):
+                        return "shortcut-get_resources-disagrees", None
+                elif api == "sync":
                     v = ctx.get_resource_nowait(*args, **kw)
                 else:
                     v = await ctx.get_resource(*args, **kw)
@@ -315,6 +331,21 @@ class Real:
                     finally:
                         done.set()
         self.tg.start_soon(agent)
+
+    async def via_agent(self, c, thunk):
+        """run thunk() in a task whose current context is c (module-level shortcut functions act on the current context)"""
+        import anyio
+        box, done = [], anyio.Event()
+        await self.agents[c].send((lambda _arg: thunk(), None, box, done))
+        await done.wait()
+        kind, val = box[0]
+        if kind == "exc":
+            raise val
+        return val
+
+    def shortcut(self, c):
+        """every other call of the Inject executor goes through the module-level shortcut of the same name"""
+        return self.inject and c in self.agents and (self.variant + self.step_no) % 2 == 1 and not self.ctx[c].closed
 
     async def inject_step(self, obs):
         import anyio
@@ -884,13 +915,16 @@ def ctx_check(prop: str, tier: str, seed: int) -> core.Report:
         mcb = [(2, 3, ["default"], False)] if tier == "quick" else [(3, 2, ["default"], False), (2, 3, ["default", "alt"], False)]
         graphs = [(2, 2, ["default"], False), (3, 1, ["default"], False), (1, 2, ["default"], True)] if tier == "quick" else \
                  [(2, 3, ["default"], False), (3, 2, ["default"], False), (2, 2, ["default", "alt"], False), (2, 1, ["default"], True)]
+        if prop == "C02":
+            # the module-level shortcuts of the same names (calls made by a task whose current context is the acted-on context)
+            graphs.append((2, 1, ["default", "alt"], "inj") if tier == "quick" else (2, 2, ["default", "alt"], "inj"))
     for (mc_, mr, nm, lf) in mcb:
         res = tlc.run("MC_Ctx", cfg_text=_cfg_text(mc_, mr, nm, life=lf, mc=True), workers=core.NCPU, big=True, heap="16g", timeout=3000, check=False)
         if res.error or res.invariant_violated or res.property_violated:
             raise core.MachineryError(f"Ctx.tla violates its own properties ({mc_},{mr}): {res.invariant_violated or res.error or 'action property'}\n{res.out[-1500:]}")
         rep.add_tlc(res, f"MC_Ctx MaxCtx={mc_} MaxRegs={mr} Names={nm} Life={lf}: ScopedDown, GenNotShared, GenIsOwn, Stable, OnlyActedOn, FailedChangesNothing, Forward, EventsRight")
     # 2. spec -> code: every state and transition of the bounded graphs replayed against real contexts
-    dumps = core.pmap(_dump_job, [(_cfg_text(a, b, nm, life=lf),) for a, b, nm, lf in graphs], chunks=1, jobs=len(graphs))
+    dumps = core.pmap(_dump_job, [(_cfg_text(a, b, nm, life=(lf is True), inj=(lf == "inj")),) for a, b, nm, lf in graphs], chunks=1, jobs=len(graphs))
     total = collections.Counter()
     all_m = []
     for (a, b, nm, lf), (g, res) in zip(graphs, dumps):
@@ -898,12 +932,12 @@ def ctx_check(prop: str, tier: str, seed: int) -> core.Report:
         _G = g
         t0 = time.time()
         jobs = core.NCPU
-        parts = core.pmap(_walk_part, [(i, jobs, a, nm, seed, lf) for i in range(jobs)], chunks=1, jobs=jobs)
+        parts = core.pmap(_walk_part, [(i, jobs, a, nm, seed, lf is True, lf == "inj") for i in range(jobs)], chunks=1, jobs=jobs)
         _G = None
         st = collections.Counter()
         for s_, mm in parts:
             st.update(s_)
-            all_m.extend((f"{a}x{b}{'L' if lf else ''}", a, nm, lf, m) for m in mm)
+            all_m.extend((f"{a}x{b}{'L' if lf is True else ('I' if lf else '')}", a, nm, lf, m) for m in mm)
         st["states"] = len(g.states)
         st["walk_wall_s"] = round(time.time() - t0, 1)
         rep.extra.setdefault("replay", []).append({"graph": f"MaxCtx={a} MaxRegs={b} Names={nm} Life={lf}", **st})
@@ -948,7 +982,8 @@ def ctx_replay_case(prop: str, scenario: dict):
 
             async def runner():
                 try:
-                    real = (RealLife if scenario.get("life") else Real)(scenario["nctx"], scenario["names"], scenario.get("seed", 1), tg)
+                    cls = RealLife if scenario.get("life") is True else (type("RealInj", (Real,), {"inject": True}) if scenario.get("life") == "inj" else Real)
+                    real = cls(scenario["nctx"], scenario["names"], scenario.get("seed", 1), tg)
                     # without the graph only results can be compared: the recorded path carries the expected results
                     for obs in scenario["path"]:
                         got_r, got_v = await real.step(obs)
